@@ -23,7 +23,9 @@ RULE = ("exhaustive: every non-empty set of distinct strict orders over m <= 3 a
         "single-peaked votes (Conitzer / Walsh style from a hidden axis) and random votes, arbitrary ids, multiplicities; "
         "planted profiles m <= 40, n <= 30 (axis through the verified checker only); large negatives = planted profile + "
         "noise with an embedded 3-4 alternative core refuted by the reference (sp_restrict). "
-        "On EVERY case the verdict is also compared with the mirror of the algorithm (op c03.elo, Model/ELO.v). "
+        "On EVERY case the verdict is also compared with the mirror of the algorithm (op c03.elo, Model/ELO.v); volume block "
+        "against the mirror: thousands of planted profiles m = 7..10, n = 2..3 (Walsh / Conitzer / correlated bottom-up) "
+        "and profiles whose elimination alternates single- and two-candidate rounds. "
         "non-trivial = >= 3 alternatives and >= 2 distinct orders")
 EXHAUSTIVE = {"quick": "all sets of distinct strict orders m<=3; all sets of <=3 orders m=4; both storage orders; all 2-voter "
                        "profiles m=4 under non-contiguous ids; all 2-voter profiles m=5 + common bottom",
@@ -104,6 +106,61 @@ def find_cores(rng, alts, rankings, extra=4):
         for _ in range(extra):
             cores.append(rng.sample(alts, 4))
     return cores
+
+
+def rounds_pattern(rankings):
+    """sizes of the successive sets of last-ranked candidates when all of them are removed at every round (the
+    elimination schedule of Escoffier-Lang-Ozturk, ignoring early exits); stops at a round with >= 3 candidates"""
+    rs = [list(r) for r in rankings]
+    pat = []
+    while rs and rs[0]:
+        lasts = []
+        for r in rs:
+            if r[-1] not in lasts:
+                lasts.append(r[-1])
+        pat.append(len(lasts))
+        if len(lasts) >= 3:
+            break
+        rs = [[a for a in r if a not in lasts] for r in rs]
+    return pat
+
+
+def alternating(pat):
+    """after the two ends are opened: a single-candidate round, later a two-candidate round, later another
+    single-candidate round that is not the last one (needs >= 7 alternatives)"""
+    if 2 not in pat:
+        return False
+    rest = pat[pat.index(2) + 1:]
+    for a in range(len(rest)):
+        if rest[a] == 1:
+            for b in range(a + 1, len(rest)):
+                if rest[b] == 2:
+                    for c_ in range(b + 1, len(rest) - 1):
+                        if rest[c_] == 1:
+                            return True
+    return False
+
+
+def corr_votes(rng, axis, n, p_same):
+    """single-peaked votes read bottom-up as left/right end removals; the voters copy the choices of the first one
+    with probability p_same (many rounds with a single common bottom)"""
+    m = len(axis)
+    base = [rng.random() < 0.5 for _ in range(m)]
+    out = []
+    for k in range(n):
+        l, r = 0, m - 1
+        rev = []
+        for step in range(m - 1):
+            ch = base[step] if (k == 0 or rng.random() < p_same) else (rng.random() < 0.5)
+            if ch:
+                rev.append(axis[l])
+                l += 1
+            else:
+                rev.append(axis[r])
+                r -= 1
+        rev.append(axis[l])
+        out.append(rev[::-1])
+    return out
 
 
 def add_common_bottoms(rng, alts, votes, k):
@@ -257,6 +314,44 @@ def generate(tier, seed):
         if i % 3 == 0 and len(votes) > 1:
             add(rand_perm(rng, alts), votes[::-1], mults[::-1], style=style, rev=1)
 
+    # ---- VOLUME against the mirror (exact verdict oracle at every size, no enumeration): planted single-peaked
+    #      profiles, m = 7..10, n = 2..3, arbitrary ids incl. 0; plus profiles whose elimination schedule alternates
+    #      single-candidate and two-candidate rounds (stale state across rounds needs >= 7 alternatives), e.g.
+    #      axis a p s r q t b with ballots r s p a q t b / r q s p t b a
+    names = dict(zip("apsrqtb", [0, 11, 5, 3, 8, 2, 7]))
+    ex = [[names[c] for c in "rspaqtb"], [names[c] for c in "rqsptba"]]
+    add([names[c] for c in "apsrqtb"], ex, mode=0, vol="example")
+    add([names[c] for c in "apsrqtb"], ex[::-1], mode=0, vol="example", rev=1)
+    nvol = 6000 if not thorough else 50000
+    nalt = 2500 if not thorough else 20000
+    made_alt = 0
+    i = 0
+    while i < nvol or made_alt < nalt:
+        m = rng.randint(7, 10)
+        n = rng.choice([2, 2, 3])
+        alts_v = rng.sample(range(0, rng.choice([m, 30, 10 ** 6])), m)
+        axis = rand_perm(rng, alts_v)
+        g = i % 3
+        if g == 0:
+            votes = [walsh(rng, axis) for _ in range(n)]
+        elif g == 1:
+            votes = [conitzer(rng, axis) for _ in range(n)]
+        else:
+            votes = corr_votes(rng, axis, n, rng.choice([0.3, 0.6, 0.8]))
+        if rng.random() < 0.1:
+            votes.append(rand_perm(rng, alts_v))          # a noise vote: mostly not single-peaked
+        votes = distinct(votes)
+        isalt = alternating(rounds_pattern(votes))
+        if i < nvol:
+            add(rand_perm(rng, alts_v), votes, mode=0, vol=("alt" if isalt else "planted"))
+            made_alt += isalt
+        elif isalt:
+            add(rand_perm(rng, alts_v), votes, mode=0, vol="alt")
+            made_alt += 1
+        i += 1
+        if i > 60 * (nvol + nalt):
+            break
+
     # ---- large planted (checker only) and large negatives (embedded core)
     nlarge = 150 if not thorough else 1200
     for i in range(nlarge):
@@ -404,6 +499,19 @@ def stats(c, r, m):
             lab.append("large planted %s" % size)
     if isinstance(r, list) and r[0] == 0 and r[1] == 1:
         lab.append("axis checked %s" % size)
+    if mm <= 12:
+        pat = rounds_pattern(rankings)
+        after = pat[pat.index(2) + 1:] if 2 in pat else []
+        ns = sum(1 for q in after[:-1] if q == 1)
+        np_ = sum(1 for q in pat if q == 2)
+        if mm >= 7:
+            lab.append("m>=7: single-candidate rounds after the ends are opened: %s" % (ns if ns < 3 else ">=3"))
+            lab.append("m>=7: two-candidate rounds: %s" % (np_ if np_ < 4 else ">=4"))
+            if alternating(pat):
+                lab.append("m>=7: alternating single / two / single rounds (%s)" %
+                           ("mirror SP" if m[-1][0] == 0 and m[-1][1][0] == 1 else "mirror notSP"))
+    if c["tags"].get("vol"):
+        lab.append("volume vs mirror %s n=%d" % (size, len(rankings)))
     me = m[-1]
     if isinstance(r, list) and r[0] == 0 and me[0] == 0:
         lab.append("mirror verdict compared %s" % ("(large)" if mode == 0 else "(small)"))
